@@ -381,6 +381,11 @@ def build(cfg, world, shared=None):
         alpha = InvVolAlpha(signals, al['lookback'], universe)
     else:
         raise ValueError(al['kind'])
+    if shared is not None and signals is not None:
+        if 'signals_bundle' in shared:
+            signals, sigs, alpha = shared['signals_bundle']      # the same signals collection and alpha model serve a further session
+        elif shared.get('share_signals'):
+            shared['signals_bundle'] = (signals, sigs, alpha)
     if shared is not None and al['kind'] == 'fixed':
         if 'alpha' in shared:
             alpha = shared['alpha']              # the same alpha model object (and its weights dict) serves several runs
@@ -443,6 +448,7 @@ def run_session(cfg, world, shared=None, observer=None):
         tr.session = sess
         tr.signals = sigs
         tr.signal_names = {id(s): n for n, s in sigs.items()}
+        tr.prior_appends = list(shared.get('prior_appends', [])) if shared is not None else []
         if observer is not None:
             observer(tr)
         # what a script may do with a freshly built session before running it: look at the first event of its clock,
@@ -852,7 +858,8 @@ def check_c16_session(cfg, world, tr, acc):
     for name_, sg in tr.signals.items():
         tally = getattr(sg, 'tally', None)
         if tally is not None:
-            landed = sum(1 for (s_, a_), v in by.items() if s_ == id(sg) for _ in v)
+            landed = sum(1 for (s_, a_), v in by.items() if s_ == id(sg) for _ in v) + \
+                sum(1 for _, bid_, _, _ in getattr(tr, 'prior_appends', []) if bmap.get(bid_) == id(sg))
             if len(tally) != landed:
                 V('C16', 'custom-signal-not-fed-through-append', 'signal %s is of a user-defined class that overrides append(): %d '
                   'observations reached its buffers, its own append() saw %d' % (name_, landed, len(tally)))
@@ -899,7 +906,12 @@ def check_c16_session(cfg, world, tr, acc):
         for sid, name in names.items():
             sig = tr.signals[name]
             entries = entries_all if (name == 'sma' and cfg['alpha'].get('mixed_universes')) else traded_entries
-            streams = {a: [p for _, p in by.get((sid, a), [])] for a in entries}
+            prior_by = {}
+            for _, bid_, asset_, price_ in getattr(tr, 'prior_appends', []):
+                if bid_ in bmap:
+                    prior_by.setdefault((bmap[bid_], asset_), []).append(price_)
+            # (a collection that already served an earlier session still holds the tail of what it was fed then)
+            streams = {a: prior_by.get((sid, a), []) + [p for _, p in by.get((sid, a), [])] for a in entries}
             streams = {a: v for a, v in streams.items() if all(x == x for x in v)}
             check_signal_values(name, sig, streams, LOOKBACKS[name](cfg['alpha']), acc)
         late = [a for a, e in traded_entries.items() if e not in (None, 'never') and e > start]
